@@ -624,3 +624,25 @@ func linNorm(op string, w int, a, b *Term) *Term {
 	}
 	return mk("bvadd", w, 0, "", 0, 0, acc, cc)
 }
+
+// Dump renders t as a nested expression down to the given depth (debugging aid).
+func (t *Term) Dump(depth int) string {
+	switch t.op {
+	case "const", "true", "false", "var", "avar":
+		return t.ref()
+	}
+	if depth <= 0 {
+		return t.ref()
+	}
+	var sb strings.Builder
+	op := t.op
+	if t.op == "extract" {
+		op = fmt.Sprintf("extract[%d:%d]", t.hi, t.lo)
+	}
+	sb.WriteString("(" + op)
+	for _, a := range t.args {
+		sb.WriteString(" " + a.Dump(depth-1))
+	}
+	sb.WriteString(")")
+	return sb.String()
+}
